@@ -26,6 +26,7 @@ type Env struct {
 	li       *loopInfo
 	depth    int
 	iterSnap map[ssa.Value]string // frozen iterator "visited" sets (clauses instantiated later)
+	inCallee bool                 // evaluating a callee's contract at a call site (vars = callee parameters)
 }
 
 type specErr string
@@ -507,6 +508,24 @@ func (env *Env) evalMod(e ast.Expr) []modItem {
 		}
 	}
 	if c, ok := e.(*ast.CallExpr); ok {
+		if id, ok := c.Fun.(*ast.Ident); ok && id.Name == "gf" {
+			pv := env.eval(c.Args[0])
+			name := c.Args[1].(*ast.BasicLit)
+			key := "H:ghost.$" + strings.Trim(name.Value, "\"")
+			env.x.regKey(key, arrSort(sInt, sInt))
+			return []modItem{{key, pv.S}}
+		}
+		if id, ok := c.Fun.(*ast.Ident); ok && (id.Name == "gfs" || id.Name == "gff") {
+			pv := env.eval(c.Args[0])
+			nm := c.Args[1].(*ast.BasicLit)
+			sort := sStr
+			if id.Name == "gff" {
+				sort = sFP
+			}
+			key := "H:ghost." + id.Name + ".$" + strings.Trim(nm.Value, "\"")
+			env.x.regKey(key, arrSort(sInt, sort))
+			return []modItem{{key, pv.S}}
+		}
 		if id, ok := c.Fun.(*ast.Ident); ok && id.Name == "contents" {
 			v := env.eval(c.Args[0])
 			switch kindOf(v.T) {
@@ -622,6 +641,9 @@ func isNilVal(v Value) bool {
 }
 
 func nilTest(v Value) string {
+	if v.LV != nil {
+		return "false" // a pointer into an object / to a variable is never nil
+	}
 	switch kindOf(v.T) {
 	case kIface:
 		return eq(v.F[0].S, "0")
